@@ -45,7 +45,9 @@ top:
 		if 0 < len(tv) {
 			if name, _ := tv[0].(string); 0 < len(name) {
 				if af := NewFn(name); af != nil {
-					af.Args = tv[1:]
+					// compile a copy: compiling rewrites the argument lists in
+					// place and would change the plan (and its String()).
+					af.Args, _ = dupLiteral(tv[1:]).([]any)
 					af.compile()
 					value = af
 					goto top
